@@ -13,7 +13,7 @@ use serde::{Deserialize, Serialize};
 use std::f64::consts::PI;
 use std::time::Instant;
 
-pub const RULE: &str = "cases = (a) closed forms for the mean of jacobian alone: massive one-vertex flowers (product of tadpoles, D*L<=8), massless L-loop bananas (L=1..3), massive bananas in D=1 with unit weights (L=1..4), massive bubble in D=3; (b) the universal identity E[jacobian * h(k) * prod_e (q_e^2+m_e^2)^nu_e] = 1 for a normalised Gaussian h with generated centre/width on arbitrary accepted graphs with D*L<=8 and all omega>=0.3, width chosen by an independent pilot run; every case under a generated routing (random spanning tree, unimodular column operations, orientation flips, offsets); (c) deterministic scaling relation jacobian(2*kinematics) = 2^(-2 dod) jacobian(kinematics) pointwise. decision: N iid uniform points from a rand::StdRng seeded by the case; z=(mean-target)/se; |z|>4.5 triggers a second stage with 8N fresh points; violation only if |z2|>5 with the same sign and comparable spread, otherwise inconclusive (never a violation). non-trivial = L>=2, or a massive edge, or unequal weights, or D!=3; distinct = distinct case encodings";
+pub const RULE: &str = "cases = (a) closed forms for the mean of jacobian alone: massive one-vertex flowers (product of tadpoles, D*L<=8), massless L-loop bananas (L=1..3), massive bananas in D=1 with unit weights (L=1..4), massive bubble in D=3; (b) the universal identity E[jacobian * h(k) * prod_e (q_e^2+m_e^2)^nu_e] = 1 for a normalised test function h (Gaussian, or Student-type (s^2+|k-c|^2)^(-sum nu) whose product with the propagators tends to a constant at large k) with generated centre/width on arbitrary accepted graphs with D*L<=8 and all omega>=0.3, width chosen by an independent pilot run; every case under a generated routing (random spanning tree, unimodular column operations, orientation flips, offsets); (c) deterministic scaling relation jacobian(2*kinematics) = 2^(-2 dod) jacobian(kinematics) pointwise. decision: N iid uniform points from a rand::StdRng seeded by the case; z=(mean-target)/se; |z|>4.5 triggers a second stage with 8N fresh points; violation only if |z2|>5 with the same sign and comparable spread, otherwise inconclusive (never a violation). non-trivial = L>=2, or a massive edge, or unequal weights, or D!=3; distinct = distinct case encodings";
 
 #[derive(Clone, Debug, Serialize, Deserialize, PartialEq)]
 pub enum Kind {
@@ -31,6 +31,9 @@ pub struct Case {
     /// Gaussian test function for Kind::Universal: centre per loop and base width
     pub centre: Vec<Vec<f64>>,
     pub width: f64,
+    /// 0 = Gaussian, 1 = Student-type (s^2+|k-c|^2)^(-sum nu): g(k) tends to a constant at large k like g = 1 does
+    #[serde(default)]
+    pub family: u8,
     pub seed: u64,
     pub n: usize,
 }
@@ -103,7 +106,7 @@ pub fn gen_case(t: &mut Tape, tier: Tier) -> Option<Case> {
     let unions = kin_given.is_some();
     let mut kin = match kin_given {
         Some(k) => k,
-        None => gen::gen_kin(t, &g, 4),
+        None => gen::gen_kin_unit(t, &g, 4),
     };
     let nl = g.num_loops();
     if nl >= 2 && !unions && t.chance(0.6) {
@@ -118,7 +121,8 @@ pub fn gen_case(t: &mut Tape, tier: Tier) -> Option<Case> {
     }
     let centre = (0..nl).map(|_| (0..g.d).map(|_| t.uniform(-1.0, 1.0)).collect()).collect();
     let width = t.uniform(0.7, 1.6);
-    Some(Case { kind, g, kin, centre, width, seed, n })
+    let family = if t.chance(0.35) { 1 } else { 0 };
+    Some(Case { kind, g, kin, centre, width, family, seed, n })
 }
 
 /// ln of the closed-form value of the Feynman integral (mean of jacobian)
@@ -188,7 +192,13 @@ fn stage<const D: usize>(s: &SampleGenerator<D>, c: &Case, ln_target: f64, width
     let ed = sut::edge_data::<D>(&g.massive, &c.kin.masses, &c.kin.shifts);
     let st = sut::settings(None, false, false);
     let universal = c.kind == Kind::Universal;
-    let ln_hnorm = -(nl as f64) * (D as f64 / 2.0) * (PI * width * width).ln();
+    let ndim = (nl * D) as f64;
+    let a_st: f64 = g.weights.iter().sum();
+    let ln_hnorm = if c.family == 1 {
+        ln_gamma(a_st) - ndim / 2.0 * PI.ln() - ln_gamma(a_st - ndim / 2.0) + (2.0 * a_st - ndim) * width.ln()
+    } else {
+        -(nl as f64) * (D as f64 / 2.0) * (PI * width * width).ln()
+    };
     let (mut s1, mut s2, mut bad, mut maxw) = (0.0f64, 0.0f64, 0usize, 0.0f64);
     let mut x = vec![0.0f64; dim];
     for _ in 0..n {
@@ -212,7 +222,7 @@ fn stage<const D: usize>(s: &SampleGenerator<D>, c: &Case, ln_target: f64, width
                     e2 += dlt * dlt;
                 }
             }
-            lnw += ln_hnorm - e2 / (width * width);
+            lnw += if c.family == 1 { ln_hnorm - a_st * (width * width + e2).ln() } else { ln_hnorm - e2 / (width * width) };
             for e in 0..ne {
                 let mut q2 = c.kin.masses[e] * c.kin.masses[e];
                 for i in 0..D {
@@ -289,7 +299,7 @@ fn check_d<const D: usize>(c: &Case, ctx: &mut Ctx) -> Result<(), Failure> {
                 (m + p).max(0.5)
             };
             let mut best: Option<(f64, f64)> = None;
-            for f in [0.5, 1.0, 2.0] {
+            for f in [0.35, 0.7, 1.4, 2.8] {
                 let w = c.width * scale * f;
                 let m = stage::<D>(&s, c, 0.0, w, 20_000, 7777 + (f * 10.0) as u64)?;
                 let rsd = m.sd / m.mean.abs().max(1e-300);
@@ -298,9 +308,12 @@ fn check_d<const D: usize>(c: &Case, ctx: &mut Ctx) -> Result<(), Failure> {
                 }
             }
             match best {
-                Some((w, rsd)) if rsd <= 8.0 => (0.0, w),
+                Some((w, rsd)) if rsd <= 20.0 => {
+                    ctx.label(format!("universal:family={}", c.family));
+                    (0.0, w)
+                }
                 _ => {
-                    ctx.label("inconclusive:heavy-tailed-test-function(pilot)");
+                    ctx.label(format!("inconclusive:heavy-tailed-test-function(pilot,family={})", c.family));
                     return Ok(());
                 }
             }
@@ -319,7 +332,9 @@ fn check_d<const D: usize>(c: &Case, ctx: &mut Ctx) -> Result<(), Failure> {
         let m2 = stage::<D>(&s, c, ln_target, width, 8 * c.n, 2)?;
         let z2 = (m2.mean - 1.0) / m2.se();
         ctx.count("mc_samples", m2.n as u64);
-        let spread_ok = m2.sd <= 2.0 * m1.sd && m1.sd <= 2.0 * m2.sd;
+        // heavy-tail guards: comparable spread in both stages, and no single sample carrying more than 1 % of the sum
+        let dominated = m2.maxw > 0.01 * m2.mean * m2.n as f64 || m1.maxw > 0.05 * m1.mean * m1.n as f64;
+        let spread_ok = m2.sd <= 2.0 * m1.sd && m1.sd <= 2.0 * m2.sd && !dominated;
         if z2.abs() > 5.0 && z1.signum() == z2.signum() && spread_ok {
             fail!("biased-estimator", "mean of jacobian*g / exact = {:.6} +- {:.6} (z={z2:.1}, N={}; first stage {:.6} +- {:.6}, z={z1:.1}); the estimator is biased for {c:?}", m2.mean, m2.se(), m2.n, m1.mean, m1.se());
         }
